@@ -1,7 +1,7 @@
 (* Properties_C12.v — the theorems that decide property C12 on the model, each stated in full and closed by
    `exact <lemma>`; the lemmas live in the Proofs_*.v files.  Nothing else belongs in this file. *)
 From Coq Require Import Sorting.Sorted.
-From Theo Require Import Base Regex Tokens Errors MacroExtract Grammar LR Gen_MacroGrammar Gen_Consts MacroApply SpecLex SpecMacro MacroStatements Proofs_Macro.
+From Theo Require Import Base Regex Tokens Errors MacroExtract Grammar LR Gen_MacroGrammar Gen_Consts MacroApply SpecLex SpecMacro MacroStatements Proofs_Macro ApplyCompleteStatements CompileStatements ApplyStatements Proofs_ApplyComplete.
 Local Open Scope Z_scope.
 
 
@@ -43,3 +43,28 @@ Theorem C12_accepted_examples :
   rejected [PROG_TEMP; PROGSEP; ID] = true.
 Proof. exact C12_accepted_examples_proof. Qed.
 Print Assumptions C12_accepted_examples.
+
+Theorem C12_not_prefix_free_rejected :
+  forall m d parts1 parts2 extra,
+    macro_ok m -> make_detector m = Ok d ->
+    matches_parts m parts1 -> matches_parts m parts2 ->
+    concat parts2 = concat parts1 ++ extra -> extra <> [] ->
+    is_usable d = false.
+Proof. exact C12_not_prefix_free_rejected_proof. Qed.
+Print Assumptions C12_not_prefix_free_rejected.
+
+Theorem C12_open_ended :
+  forall m d pre p,
+    macro_ok m -> make_detector m = Ok d -> m_rule m = pre ++ [p] ->
+    (tk p = PROG_TEMP \/ tk p = ARGS_TEMP) ->
+    is_usable d = false.
+Proof. exact C12_open_ended_proof. Qed.
+Print Assumptions C12_open_ended.
+
+Theorem C12_trailing_sep :
+  forall m d pre p q,
+    macro_ok m -> make_detector m = Ok d -> m_rule m = pre ++ [p; q] ->
+    ((tk p = PROG_TEMP /\ tk q = PROGSEP) \/ (tk p = ARGS_TEMP /\ tk q = ARGSEP)) ->
+    is_usable d = false.
+Proof. exact C12_trailing_sep_proof. Qed.
+Print Assumptions C12_trailing_sep.
